@@ -32,6 +32,7 @@ class _Top:
 
 
 TOP = _Top()
+_MISSING = object()
 
 
 class Sym:
@@ -179,6 +180,7 @@ class Hooks:
 
 
 STOP = Sym('<<stop-iteration>>')
+NONE = Sym('<<python-None>>')      # a hook answers a call with the value None
 
 
 class Interp:
@@ -274,7 +276,7 @@ class Interp:
     st_Global = st_Nonlocal = st_Import = st_ImportFrom = st_Pass
 
     def st_FunctionDef(self, n, s):
-        s.env[n.name] = Sym('func:%s' % n.name)
+        s.env[n.name] = Sym('func:%s' % n.name, truthy=True, attrs={'node': n} if isinstance(n, ast.FunctionDef) else None)
         return {'fall': [(s, None)]}
 
     st_ClassDef = st_AsyncFunctionDef = st_FunctionDef
@@ -404,7 +406,15 @@ class Interp:
                 for _s, i in self.expr(t.slice, s, fork=False):
                     idx = i
             stored = False
-            if isinstance(base, Obj) and isinstance(base.attrs.get('__items'), dict) and idx is not None and is_concrete(idx):
+            if isinstance(t.slice, ast.Slice) and isinstance(base, list) and isinstance(v, (list, tuple)):
+                lo, hi, stp = [self.ev(x, s) if x is not None else None for x in (t.slice.lower, t.slice.upper, t.slice.step)]
+                if all(x is None or isinstance(x, int) for x in (lo, hi, stp)):
+                    try:
+                        base[lo:hi:stp] = list(v)
+                        stored = True
+                    except Exception:
+                        pass
+            elif isinstance(base, Obj) and isinstance(base.attrs.get('__items'), dict) and idx is not None and is_concrete(idx):
                 try:
                     base.attrs['__items'][idx] = v
                     stored = True
@@ -766,6 +776,8 @@ class Interp:
         node = getattr(fn, 'node', None)
         if isinstance(f, ast.Name):
             cur = s.env.get(f.id)
+            if isinstance(cur, Sym) and cur.label.startswith('func:') and isinstance(cur.attrs.get('node'), ast.FunctionDef):
+                return cur.attrs['node'], False, None        # a nested function, possibly handed over as an argument
             if isinstance(cur, Sym) and cur.label.startswith('func:') and isinstance(node, (ast.FunctionDef, ast.AsyncFunctionDef)):
                 for x in ast.walk(node):
                     if isinstance(x, ast.FunctionDef) and x.name == f.id and x is not node:
@@ -828,7 +840,7 @@ class Interp:
         r = self.h.call(self, call, self.canon(fname, s), args, kwargs, s)
         if r is not None:
             self.emit(s, ('call', self.canon(fname, s), tuple(_evarg(a, x) for a, x in zip(args, call.args)), call.lineno))
-            return [(s, r)]
+            return [(s, None if r is NONE else r)]
         params = [a.arg for a in node.args.posonlyargs + node.args.args]
         if bound and params:
             params = params[1:]
@@ -856,6 +868,10 @@ class Interp:
             if info is None:
                 for k, v in s.env.items():
                     cs.env.setdefault(k, v)
+                # free variables of a closure that was handed over through other helpers
+                for k in sorted((k for k in s.env if k.startswith('__caller@')), reverse=True):
+                    for kk, vv in s.env[k].items():
+                        cs.env.setdefault(kk, vv)
         cs.env.update(local)
         ckey = '__caller@%d' % len(self._inline_stack)
         cs.env[ckey] = s.env          # travels (and is forked) with the callee state: aliasing with caller locals is kept
@@ -1231,18 +1247,85 @@ class Interp:
     def ev_Lambda(self, n, s):
         return Sym('lambda@%d' % n.lineno)
 
+    def _comprehend(self, n, s, elt):
+        """Evaluate a comprehension over known iterables (no forks inside: unknown tests give up)."""
+        out = []
+        saved = {}
+
+        def bind(t, v):
+            for nm in [x.id for x in ast.walk(t) if isinstance(x, ast.Name)]:
+                if nm not in saved:
+                    saved[nm] = s.env.get(nm, _MISSING)
+            self.assign(t, v, s, n, quiet=True)
+
+        def rec(i):
+            if i == len(n.generators):
+                out.append(elt(s))
+                return True
+            g = n.generators[i]
+            it = self.ev(g.iter, s)
+            if isinstance(it, Iter):
+                it = it.items[it.pos:]
+            if isinstance(it, dict):
+                it = list(it.keys())
+            if isinstance(it, range):
+                it = list(it)
+            if not isinstance(it, (list, tuple, str)) or isinstance(it, M._StringLetters) or len(it) > 256:
+                return False
+            for v in it:
+                bind(g.target, v)
+                ok = True
+                for c in g.ifs:
+                    t = self.truth(self.ev(c, s))
+                    if t is None:
+                        return False
+                    if not t:
+                        ok = False
+                        break
+                if ok and not rec(i + 1):
+                    return False
+            return True
+        try:
+            good = rec(0)
+        finally:
+            for nm, v in saved.items():
+                if v is _MISSING:
+                    s.env.pop(nm, None)
+                else:
+                    s.env[nm] = v
+        return out if good else None
+
     def ev_ListComp(self, n, s):
-        # evaluate generators' iterables for events only
-        for g in n.generators:
-            self.ev(g.iter, s)
+        r = self._comprehend(n, s, lambda st: self.ev(n.elt, st))
+        if r is None:
+            for g in n.generators:
+                self.ev(g.iter, s)
+            return TOP
+        return r
+
+    def ev_SetComp(self, n, s):
+        r = self.ev_ListComp(n, s)
+        if isinstance(r, list) and is_concrete(r):
+            try:
+                return set(r)
+            except TypeError:
+                return TOP
         return TOP
 
-    ev_SetComp = ev_GeneratorExp = ev_ListComp
+    def ev_GeneratorExp(self, n, s):
+        r = self.ev_ListComp(n, s)
+        return Iter(r) if isinstance(r, list) else TOP
 
     def ev_DictComp(self, n, s):
-        for g in n.generators:
-            self.ev(g.iter, s)
-        return TOP
+        r = self._comprehend(n, s, lambda st: (self.ev(n.key, st), self.ev(n.value, st)))
+        if r is None or not all(is_concrete(k) for k, v in r):
+            for g in n.generators:
+                self.ev(g.iter, s)
+            return TOP
+        try:
+            return dict(r)
+        except TypeError:
+            return TOP
 
     def ev_Yield(self, n, s):
         v = self.ev(n.value, s) if n.value is not None else None
@@ -1387,6 +1470,12 @@ class Interp:
             cur = s.env.get(n.func.id)
             if isinstance(cur, Sym) and cur.label.startswith('method:'):
                 fname = 'self.' + cur.label[7:]      # a local bound to one of our own methods
+            elif isinstance(cur, Sym) and cur.label.startswith('self.') and cur.label.replace('.', '').replace('_', '').isalnum():
+                fname = cur.label                     # a local / parameter bound to self.x.y (handed over by the caller)
+        elif isinstance(n.func, ast.Attribute) and isinstance(n.func.value, ast.Name):
+            cur = s.env.get(n.func.value.id)
+            if isinstance(cur, Sym) and isinstance(cur.attrs.get('path'), str):
+                fname = '%s.%s' % (cur.attrs['path'], n.func.attr)     # method of an object known by the path it was taken from
         # arguments first: an inlined helper call among them replaces the state's objects by copies
         args = [self.ev(a, s) for a in n.args]
         kwargs = {}
@@ -1407,7 +1496,7 @@ class Interp:
         r = self.h.call(self, n, fname, args, kwargs, s)
         self.emit(s, ('call', fname, tuple(_evarg(a, x) for a, x in zip(args, n.args)), n.lineno))
         if r is not None:
-            return r
+            return None if r is NONE else r
         if self.inline_depth > 0 and len(self._inline_stack) < self.inline_depth:
             # helper used inside an expression: inline only when it has a single outcome
             f2 = s.fork()
